@@ -1,8 +1,11 @@
-/- Driver for C01 (stub). -/
-import ControlModel.Basic
+/- Driver for C01 (monitor + Spec.C01 on the observed trace). -/
+import Driver.EnvCommon
+import ControlModel.Spec.C01
 
 namespace Driver.C01
+open EnvM Driver.EnvCommon
 
-def processLine (_line : String) : String := "UNIMPLEMENTED\t0\t-"
+def processLine (line : String) : String :=
+  processWith (fun i tr => (specC01 i.reqs tr, "-")) line
 
 end Driver.C01
